@@ -386,6 +386,12 @@ func (it *k4interp) lookup(key string, t types.Type) (k4val, error) {
 		}
 		key = it.mem[best].s + key[len(best):]
 	}
+	if strings.HasPrefix(key, "global:") {
+		// an element of a package-level table that only the package initialiser writes
+		if v, ok := globalInitValue(it.p, key); ok {
+			return v, nil
+		}
+	}
 	if strings.HasPrefix(key, "zero.") || strings.HasPrefix(key, "zero[") {
 		// a field/element of a zero-value aggregate
 		if isBoolT(t) {
@@ -425,6 +431,13 @@ func (it *k4interp) lookup(key string, t types.Type) (k4val, error) {
 		if _, isSlice := t.Underlying().(*types.Slice); isSlice {
 			it.frameID++
 			return k4val{kind: 8, s: fmt.Sprintf("NIL%d", it.frameID), ln: 0, cp: 0}, nil
+		}
+		// `var err error`, `var p *T`, … never assigned: nil (only for a plain local, not a field or element of one)
+		if !strings.ContainsAny(key[strings.Index(key, ":"):], ".[") {
+			switch t.Underlying().(type) {
+			case *types.Interface, *types.Pointer, *types.Signature, *types.Map:
+				return k4val{kind: 3, s: "nil"}, nil
+			}
 		}
 	}
 	if it.answer != nil && (isBoolT(t) || isNumeric(t)) {
@@ -1516,4 +1529,84 @@ func isSnapshotKey(k string) bool {
 // constructor, which never returns nil.
 func isFreshErrorTerm(s string) bool {
 	return strings.HasPrefix(s, "fmt.Errorf(") || strings.HasPrefix(s, "errors.New(")
+}
+
+// globalInitValue: the constant that the package initialiser stores at the
+// given path of a package-level variable ("global:name[3]", "global:name.f"),
+// provided no other function of the repository stores into that variable.
+var globalInitMemo = map[*Program]map[string]k4val{}
+
+func globalInitValue(p *Program, key string) (k4val, bool) {
+	tab, ok := globalInitMemo[p]
+	if !ok {
+		tab = map[string]k4val{}
+		written := map[string]bool{} // globals stored to outside init
+		var pathOf func(a ssa.Value, d int) (string, *ssa.Global)
+		pathOf = func(a ssa.Value, d int) (string, *ssa.Global) {
+			if d > 5 {
+				return "", nil
+			}
+			switch x := a.(type) {
+			case *ssa.Global:
+				return "global:" + x.Name(), x
+			case *ssa.IndexAddr:
+				b, g := pathOf(x.X, d+1)
+				if k, isC := constInt(x.Index); isC && g != nil {
+					return fmt.Sprintf("%s[%d]", b, k), g
+				}
+				return "", g
+			case *ssa.FieldAddr:
+				b, g := pathOf(x.X, d+1)
+				if g != nil && b != "" {
+					return b + "." + fieldName(x.X.Type(), x.Field), g
+				}
+				return "", g
+			}
+			return "", nil
+		}
+		for _, f := range p.Funcs {
+			if !p.InRepo(f) {
+				continue
+			}
+			isInit := f.Name() == "init" || strings.HasPrefix(f.Name(), "init#")
+			eachInstr(f, func(in ssa.Instruction) {
+				st, ok := in.(*ssa.Store)
+				if !ok {
+					return
+				}
+				path, g := pathOf(st.Addr, 0)
+				if g == nil {
+					return
+				}
+				if !isInit {
+					written["global:"+g.Name()] = true
+					return
+				}
+				cst, ok := st.Val.(*ssa.Const)
+				if !ok || path == "" || cst.Value == nil {
+					return
+				}
+				switch {
+				case isBoolT(cst.Type()):
+					tab[path] = k4val{kind: 1, b: cst.Value.String() == "true"}
+				case isNumeric(cst.Type()):
+					if fv, ok := constantFloat(cst); ok {
+						tab[path] = k4val{kind: 2, f: fv}
+					}
+				}
+			})
+		}
+		for k := range tab {
+			root := k
+			if i := strings.IndexAny(k[len("global:"):], ".["); i >= 0 {
+				root = k[:len("global:")+i]
+			}
+			if written[root] {
+				delete(tab, k)
+			}
+		}
+		globalInitMemo[p] = tab
+	}
+	v, ok := tab[key]
+	return v, ok
 }
